@@ -616,6 +616,8 @@ class FakeSock(_Named):
             raise OSError(errno.EBADF, "Bad file descriptor")
         if self.refused:
             raise ConnectionRefusedError(errno.ECONNREFUSED, "Connection refused")
+        if self.reset and data:
+            raise ConnectionResetError(errno.ECONNRESET, "Connection reset by peer")
         if self.blocked_writes > 0 and data:
             self.blocked_writes -= 1
             raise BlockingIOError(errno.EAGAIN, "Resource temporarily unavailable")
